@@ -269,6 +269,77 @@ static bool sc_mutex_contended(long it) {
     return !bad && counter > 0;
 }
 
+// 12: two threads call ONE promise concurrently (value vs value, value vs drop): exactly one call may win and the future
+// must hold exactly the winner's payload (promise::claim, future.h)
+static bool sc_promise_race(long it) {
+    future<Payload> f;
+    auto p = f.get_promise();
+    std::atomic<int> go{0};
+    bool won[2] = {false, false};
+    const bool with_drop = (it % 3) == 0;
+    auto call = [&](int who) {
+        go.fetch_add(1);
+        while (go.load() < 2) {}
+        if (who == 1 && with_drop) { bool r = p(drop); won[who] = r; }
+        else { bool r = p(it * 10 + who); won[who] = r; }
+    };
+    std::thread a(call, 0), b(call, 1);
+    a.join(); b.join();
+    if (won[0] == won[1]) return false;                     // none or both claimed
+    if (!f.ready()) return false;
+    int w = won[0] ? 0 : 1;
+    if (w == 1 && with_drop) {
+        try { (void)f.value(); return false; } catch (const await_canceled_exception &) { return true; }
+    }
+    return f.value().all(it * 10 + w);
+}
+
+// 13: two threads publish to one publisher (one of them closes it at the end) while two subscribers block in next()
+static bool sc_two_publishers(long it) {
+    publisher<long> pub;
+    subscriber<long> s1(pub), s2(pub);
+    bool ok = true;
+    std::atomic<long> got{0};
+    auto reader = [&](subscriber<long> *s) {
+        long last[2] = {-1, -1};
+        while (s->next()) {
+            long v = s->value(); int src = (int)(v & 1);
+            if (v <= last[src]) ok = false;       // per-publisher order
+            last[src] = v; got.fetch_add(1, std::memory_order_relaxed);
+        }
+    };
+    std::thread r1(reader, &s1), r2(reader, &s2);
+    std::atomic<int> done{0};
+    auto writer = [&](long src) {
+        for (long k = 1; k <= 25; k++) { pub.publish(k * 2 + src); if ((k & 7) == 0) spin(); }
+        if (done.fetch_add(1) == 1) pub.close();
+    };
+    std::thread w1(writer, 0), w2(writer, 1);
+    w1.join(); w2.join(); r1.join(); r2.join();
+    (void)it;
+    return ok && got.load() > 0;
+}
+
+// 14: has_value() waiter: polls await_ready() / converts to bool while another thread resolves (future::awaitable_bool)
+static bool sc_has_value(long it) {
+    future<Payload> f;
+    target_scope ts_(&f._awaiter);
+    auto p = f.get_promise();
+    std::thread t([&] { if (it & 1) spin(); if (it % 5 == 0) p(drop); else p(it); });
+    bool ok = true;
+    if (it & 2) {
+        auto hv = f.has_value();
+        while (!hv.await_ready()) spin();
+        bool has = hv.await_resume();
+        ok = (has == (it % 5 != 0)) && (!has || f.value().all(it));
+    } else {
+        bool has = f.has_value();
+        ok = (has == (it % 5 != 0)) && (!has || f.value().all(it));
+    }
+    t.join();
+    return ok;
+}
+
 int main(int argc, char **argv) {
     if (argc < 2) return 2;
     cocls::verif::get_hooks().log = [](const char *id, long a, long) {
@@ -278,7 +349,7 @@ int main(int argc, char **argv) {
         std::printf("CASE %s\n", cs.name.c_str());
         std::fflush(stdout);
         for (auto &op : cs.ops) {
-            if (op.size() != 2 || op[0] < 1 || op[0] > 11 || op[1] < 0 || op[1] > 100000) { vh::print_obs({-1}); continue; }
+            if (op.size() != 2 || op[0] < 1 || op[0] > 14 || op[1] < 0 || op[1] > 100000) { vh::print_obs({-1}); continue; }
             bool ok = true;
             for (long it = 1; it <= op[1] && ok; it++) {
                 switch (op[0]) {
@@ -293,6 +364,9 @@ int main(int argc, char **argv) {
                     case 9: ok = sc_publisher(it); break;
                     case 10: ok = sc_pool_sched(it); break;
                     case 11: ok = sc_mutex_contended(it); break;
+                    case 12: ok = sc_promise_race(it); break;
+                    case 13: ok = sc_two_publishers(it); break;
+                    case 14: ok = sc_has_value(it); break;
                 }
             }
             vh::print_obs({ok ? 0L : 1L});
